@@ -3,6 +3,7 @@ package main
 import (
 	"fmt"
 	"go/token"
+	"go/types"
 	"strings"
 	"unicode"
 
@@ -44,6 +45,7 @@ func init() {
 			checkVersionsAppendOnly(c)
 			checkIdentityValidate(c)
 			checkTextEmpty(c)
+			checkCloneDeep(c)
 			checkValidateBeforePersist(c)
 			checkIdentityReadIdGuard(c, "R9.5")
 			checkIdentityMergeComparesCommits(c)
@@ -673,4 +675,67 @@ func checkRepoCacheMergeAllTiers(c *Ctx) {
 	}
 	c.Check(fields["identities"] && fields["bugs"], "R2.10", "RepoCache.MergeAll:tiers", pos, "identities and bugs are merged", "the identities or the bugs sub-cache is not part of what MergeAll merges")
 	c.Check(loops >= 3 && bad == "" && relayed, "R2.10", "RepoCache.MergeAll:every-tier-every-result", pos, fmt.Sprintf("%d loops left by exhaustion only; every result relayed", loops), bad)
+}
+
+// R9.10: a clone shares no mutable container with its original. Identity.SetMetadata and Mutate build the
+// next version from lastVersion().Clone(); a map or slice field left as copied by `clone := *v` is the very
+// container of the committed version, so writing the new version rewrites the old one in memory.
+func checkCloneDeep(c *Ctx) {
+	w := c.W
+	c.Doc("R9.10", "in every Clone method of package entities/identity that starts from a struct copy of its receiver, each field of map or slice type is assigned again (a fresh container, or nil) before the clone is returned")
+	n := 0
+	for _, f := range w.ModFns {
+		if fnPkgPath(f) != modPath+"/entities/identity" || f.Name() != "Clone" || f.Signature.Recv() == nil || isInstance(f) || f.Synthetic != "" {
+			continue
+		}
+		c.seeFn(funcName(f))
+		// the clone: an Alloc of the receiver's struct type initialised by a store of *receiver
+		var clone *ssa.Alloc
+		for _, b := range f.Blocks {
+			for _, ins := range b.Instrs {
+				st, ok := ins.(*ssa.Store)
+				if !ok {
+					continue
+				}
+				al, isAl := st.Addr.(*ssa.Alloc)
+				u, isU := st.Val.(*ssa.UnOp)
+				if isAl && isU && u.Op == token.MUL && u.X == ssa.Value(f.Params[0]) {
+					clone = al
+				}
+			}
+		}
+		if clone == nil {
+			c.Info("R9.10", funcName(f)+":no-shared-containers", w.FnPos(f), "the clone is not built from a struct copy of the receiver (built field by field): nothing is shared by construction")
+			continue
+		}
+		n++
+		st := derefStruct(clone.Type())
+		if st == nil {
+			continue
+		}
+		assigned := map[string]bool{}
+		for _, r := range *clone.Referrers() {
+			if fa, ok := r.(*ssa.FieldAddr); ok {
+				for _, r2 := range *fa.Referrers() {
+					if s2, isSt := r2.(*ssa.Store); isSt && s2.Addr == ssa.Value(fa) {
+						assigned[fieldName(fa)] = true
+					}
+				}
+			}
+		}
+		var shared []string
+		for i := 0; i < st.NumFields(); i++ {
+			fld := st.Field(i)
+			c.Sites++
+			switch fld.Type().Underlying().(type) {
+			case *types.Map, *types.Slice:
+				if !assigned[fld.Name()] {
+					shared = append(shared, fld.Name())
+				}
+			}
+		}
+		c.Check(len(shared) == 0, "R9.10", funcName(f)+":no-shared-containers", w.FnPos(f), "every map and slice field is re-assigned",
+			fmt.Sprintf("the clone keeps the original's %v as copied by the struct assignment: the next version and the committed one share that container, so setting a value on the new version rewrites the committed version in memory — what the running process serves (first-defined-wins metadata) differs from what is read back from git", shared))
+	}
+	c.Check(n >= 1, "R9.10", "expected:struct-copy-clones", "entities/identity", fmt.Sprintf("%d Clone methods starting from a struct copy", n), "no Clone method starting from a struct copy found")
 }
